@@ -404,3 +404,31 @@ def run(ctx):  # noqa: F811
     # the "divide by the bin size" step of power_analyze is Field.weight with the non-scalar volumes of the power space
     from .c06 import r06_8
     r06_8(ctx, "R10.6")
+    r10_7(ctx, ctx.model)
+    # natural binning of the partner: population and unique k-lengths (shared with C08)
+    from .c08 import r08_13
+    r08_13(ctx, ctx.model, rid13="R10.8", rid14="R10.9")
+
+
+def r10_7(ctx, m):
+    """the callable-spectrum path keeps the values the spectrum function returns"""
+    fi = m.func("nifty.cl.sugar", "PS_field")
+    ctx.saw_func(fi)
+    ctx.rule("R10.7", "PS_field (callable spectra of create_power_operator): the values returned by the spectrum function reach the field "
+                      "without a narrowing dtype coercion (np.asarray(..., dtype=float), astype(float), .real) - a complex spectrum "
+                      "would silently lose its imaginary part", floor=1)
+    fn = fi.params()[1]
+    calls = [c for c in walk_no_nested(fi.node) if isinstance(c, ast.Call) and src(c.func) == fn]
+    key = f"{fi.key}::spectrum values are not coerced to a real dtype"
+    if len(calls) != 1:
+        ctx.und("R10.7", key, f"{len(calls)} calls of the spectrum function", fi)
+        return
+    bad = []
+    for x in walk_no_nested(fi.node):
+        if isinstance(x, ast.Call) and call_name(x) in ("asarray", "array", "astype", "asanyarray", "full", "broadcast_to"):
+            dt = [k.value for k in x.keywords if k.arg == "dtype"] + ([x.args[0]] if call_name(x) == "astype" and x.args else [])
+            if dt and any(w in src(dt[0]) for w in ("float", "int", "bool")):
+                bad.append(x)
+        if isinstance(x, ast.Attribute) and x.attr == "real" and any(c is y for c in calls for y in ast.walk(x.value)):
+            bad.append(x)
+    ctx.check("R10.7", key, not bad, f"`{short(bad[0], 70)}` forces a real dtype" if bad else None, fi, bad[0] if bad else calls[0])
